@@ -91,8 +91,13 @@ func c01Eval(c *fw.Ctx, data any) {
 			if !c01Frame(c, kind, m.Sub("message"), inner[:il], "embedded-") {
 				ok = false
 			}
-			if il != len(inner) {
-				c.Violation(kind, "frame", "embedded-extent", fmt.Sprintf("embedded message declares %d bytes, %d bytes follow the bundle header", il, len(inner)))
+			// what follows the embedded message must be exactly the bundle's properties (padded to 8 bytes each)
+			props := 0
+			for _, p := range m.List("properties") {
+				props += (4 + len(p.Bytes("body")) + 7) / 8 * 8
+			}
+			if il+props != len(inner) {
+				c.Violation(kind, "frame", "embedded-extent", fmt.Sprintf("embedded message declares %d bytes and %d property bytes are expected, but %d bytes follow the bundle header", il, props, len(inner)))
 				ok = false
 			}
 		} else {
